@@ -1,9 +1,9 @@
 #!/bin/bash
-# seed_eval.sh <seed-id> [property]  : confirm a seeded change from /tmp/seed/<id>/out in a scratch worktree,
+# seed_eval.sh <seed-id> [property] [suffix]  : (suffix names a later round: seeded/<id><suffix>) confirm a seeded change from /tmp/seed/<id>/out in a scratch worktree,
 # store it under /verif/seeded/<id>/, then run the property's quick check against it (applied to /repo, reverted afterwards).
-id=$1; prop=${2:-${id%%-*}}
+id=$1; prop=${2:-${id%%-*}}; suffix=${3:-}
 export GOFLAGS=-mod=mod GOPROXY=off GOSUMDB=off GOTOOLCHAIN=local
-src=/tmp/seed/$id/out; dst=/verif/seeded/$id
+src=/tmp/seed/$id/out; dst=/verif/seeded/$id$suffix
 [ -f $src/patch.diff ] || { echo "no patch in $src"; exit 2; }
 mkdir -p $dst; cp $src/patch.diff $src/zz_seed_demo_test.go $src/meta.json $src/demo_pkg.txt $dst/ 2>/dev/null
 pkg=$(cat $dst/demo_pkg.txt 2>/dev/null | tr -d '\n '); pkg=${pkg:-.}
